@@ -79,7 +79,7 @@ package compress
 // lz written for a new window: clamped to the 5 bits it is stored in
 //@ spec newLz(x uint64) uint8 = ite(clz64(x) >= 32, uint8(31), clz64(x))
 // token pattern for one value x after previous value prev in window (lz,tz)
-//@ spec encV(s int, p int, lz uint8, tz uint8, prev uint64, x uint64) bool = ite(prev ^ x == 0, tokIs(s, p, 0, 1), tokIs(s, p, 1, 1) && ite(lz <= clz64(prev ^ x) && tz <= ctz64(prev ^ x), tokIs(s, p+1, 0, 1) && tokIs(s, p+2, (prev ^ x) >> uint64(tz), 64 - int(lz) - int(tz)), tokIs(s, p+1, 1, 1) && tokIs(s, p+2, uint64(newLz(prev ^ x)), 5) && tokIs(s, p+3, uint64((64 - newLz(prev ^ x) - ctz64(prev ^ x)) & 63), 6) && tokIs(s, p+4, (prev ^ x) >> uint64(ctz64(prev ^ x)), 64 - int(newLz(prev ^ x)) - int(ctz64(prev ^ x)))))
+//@ spec encV(s int, p int, lz uint8, tz uint8, prev uint64, x uint64) bool = ite(prev ^ x == 0, tokIs(s, p, 0, 1), tokIs(s, p, 1, 1) && ite(lz <= clz64(prev ^ x) && tz <= ctz64(prev ^ x), tokIs(s, p+1, 0, 1) && tokIs(s, p+2, (prev ^ x) >> uint64(tz), 64 - int(lz) - int(tz)) && ((prev ^ x) >> uint64(tz)) << uint64(tz) == prev ^ x, tokIs(s, p+1, 1, 1) && tokIs(s, p+2, uint64(newLz(prev ^ x)), 5) && tokIs(s, p+3, uint64((64 - newLz(prev ^ x) - ctz64(prev ^ x)) & 63), 6) && tokIs(s, p+4, (prev ^ x) >> uint64(ctz64(prev ^ x)), 64 - int(newLz(prev ^ x)) - int(ctz64(prev ^ x))) && ((prev ^ x) >> uint64(ctz64(prev ^ x))) << uint64(ctz64(prev ^ x)) == prev ^ x))
 //@ spec encVLen(lz uint8, tz uint8, prev uint64, x uint64) int = ite(prev ^ x == 0, 1, ite(lz <= clz64(prev ^ x) && tz <= ctz64(prev ^ x), 3, 5))
 //@ spec encVLz(lz uint8, tz uint8, prev uint64, x uint64) uint8 = ite(prev ^ x == 0 || (lz <= clz64(prev ^ x) && tz <= ctz64(prev ^ x)), lz, newLz(prev ^ x))
 //@ spec encVTz(lz uint8, tz uint8, prev uint64, x uint64) uint8 = ite(prev ^ x == 0 || (lz <= clz64(prev ^ x) && tz <= ctz64(prev ^ x)), tz, ctz64(prev ^ x))
@@ -93,4 +93,38 @@ package compress
 //@   ensures [window] implies(result1 == nil, c.leadingZeros == encVLz(old(c.leadingZeros), old(c.trailingZeros), old(c.value), f64bits(v)) && c.trailingZeros == encVTz(old(c.leadingZeros), old(c.trailingZeros), old(c.value), f64bits(v)))
 //@   ensures [state-ok] implies(result1 == nil, encStateOK(c.leadingZeros, c.trailingZeros))
 //@   ensures [same-stream] ghost(c.bw, "sid") == old(ghost(c.bw, "sid")) && c.bw == old(c.bw)
+//@   modifies c.value, c.leadingZeros, c.trailingZeros, c.bw.buffer, c.bw.count, ghost(c.bw, "wpos"), ghostseq("tokv"), ghostseq("tokn")
+//@   note the frame (modifies) of this verified function is not itself checked
+//@ end
+
+// ---- value decoder -------------------------------------------------------------
+// ghost(d,"elz") / ghost(d,"etz"): the ENCODER's window when it produced the
+// upcoming tokens; ghost(d,"expect"): the value bits it encoded.  Coupling of
+// the two state machines: before the first new-window record the encoder's
+// window is the sentinel 255 and the decoder's is irrelevant, afterwards they
+// are equal.
+//@ ghostdecl elz uint8
+//@ ghostdecl etz uint8
+//@ spec coupled(elz uint8, etz uint8, dlz uint8, dtz uint8) bool = elz == 255 || (elz == dlz && etz == dtz)
+
+//@ func (*Decompressor).decompressValue
+//@   props C08
+//@   requires d != nil && d.br != nil && ghost(d.br, "rpos") >= 0 && ghost(d.br, "rpos") <= 1000000000
+//@   requires encStateOK(ghost(d, "elz"), ghost(d, "etz")) && coupled(ghost(d, "elz"), ghost(d, "etz"), d.leadingZeros, d.trailingZeros)
+//@   requires encV(ghost(d.br, "sid"), ghost(d.br, "rpos"), ghost(d, "elz"), ghost(d, "etz"), d.value, ghost(d, "expect"))
+//@   ensures [bit-exact] implies(result1 == nil, d.value == ghost(d, "expect") && feq(result0, f64frombits(ghost(d, "expect"))))
+// intermediate facts at the payload read (proved there, then available to the postconditions)
+//@   site call d.br.readBits #3:
+//@     assert [window-known] d.leadingZeros == encVLz(ghost(d, "elz"), ghost(d, "etz"), old(d.value), ghost(d, "expect")) && d.trailingZeros == encVTz(ghost(d, "elz"), ghost(d, "etz"), old(d.value), ghost(d, "expect"))
+//@     assert [payload-next] ghostat(ghost(d.br, "sid"), ghost(d.br, "rpos"), "tokv") == (old(d.value) ^ ghost(d, "expect")) >> uint64(d.trailingZeros)
+//@     assert [low-bits-zero] ((old(d.value) ^ ghost(d, "expect")) >> uint64(d.trailingZeros)) << uint64(d.trailingZeros) == old(d.value) ^ ghost(d, "expect")
+//@     assert [value-unchanged] d.value == old(d.value)
+//@   ensures [consumed] implies(result1 == nil, ghost(d.br, "rpos") == old(ghost(d.br, "rpos")) + encVLen(ghost(d, "elz"), ghost(d, "etz"), old(d.value), ghost(d, "expect")))
+//@   ensures [coupled] implies(result1 == nil, coupled(encVLz(ghost(d, "elz"), ghost(d, "etz"), old(d.value), ghost(d, "expect")), encVTz(ghost(d, "elz"), ghost(d, "etz"), old(d.value), ghost(d, "expect")), d.leadingZeros, d.trailingZeros))
+//@   ensures [same-stream] ghost(d.br, "sid") == old(ghost(d.br, "sid")) && d.br == old(d.br)
+//@   modifies d.value, d.leadingZeros, d.trailingZeros, d.br.count, ghost(d.br, "rpos")
+//@   note the frame (modifies) of this verified function is not itself checked
+//@   loop 1:
+//@     invariant d.br == old(d.br) && d.value == old(d.value) && d.leadingZeros == old(d.leadingZeros) && d.trailingZeros == old(d.trailingZeros)
+//@     invariant (i == 0 && read == 0 && ghost(d.br, "rpos") == old(ghost(d.br, "rpos"))) || (i == 1 && read == 1 && ghost(d.br, "rpos") == old(ghost(d.br, "rpos")) + 1 && ghostat(ghost(d.br, "sid"), old(ghost(d.br, "rpos")), "tokv") == 1) || (i == 2 && read == 3 && ghost(d.br, "rpos") == old(ghost(d.br, "rpos")) + 2 && ghostat(ghost(d.br, "sid"), old(ghost(d.br, "rpos")), "tokv") == 1 && ghostat(ghost(d.br, "sid"), old(ghost(d.br, "rpos")) + 1, "tokv") == 1)
 //@ end
